@@ -1,10 +1,173 @@
-(* Props/C20.v — property theorems only; proofs live in Proofs/C20.v. *)
+(* Props/C20.v — property theorems for C20 (a CCB dial returns only the
+   connection that presents its fresh connect id).  Proofs live in
+   Proofs/C20.v; the model in Model/CCB.v.  Schedules are arbitrary event
+   lists, so each statement covers every arrival order / interleaving. *)
 From Coq Require Import List NArith ZArith Bool.
 From Cedar Require Import Lib.Bytes gen.FactsC20 Model.CCB Proofs.C20.
 Import ListNotations.
 
+(* ---- fresh ids ------------------------------------------------------------ *)
+
+(* different random draws give different connect ids; 20 random bytes give the
+   documented 40 hex characters (so the id is never empty) *)
+Theorem C20_id_fresh : forall r1 r2 : bytes,
+  r1 <> r2 -> connect_id r1 <> connect_id r2.
+Proof. exact connect_id_fresh. Qed.
+Print Assumptions C20_id_fresh.
+
+Theorem C20_id_length : forall r : bytes,
+  N.of_nat (length r) = 20%N -> lenN (connect_id r) = connect_id_hex_len /\ connect_id r <> [].
+Proof. exact connect_id_length_nonempty. Qed.
+Print Assumptions C20_id_length.
+
+(* ---- the matching rule ---------------------------------------------------- *)
+
+(* a greeting matches a (non-empty) id only if it is a well-formed
+   CCB_REVERSE_CONNECT hello whose ClaimId string is exactly that id; hence no
+   greeting matches two different ids *)
 Theorem C20_matching_presents_id : forall id g,
-  hello_matches id g = true ->
-  exists c, g = GHello ccb_reverse_connect c /\ ad_string c = id.
-Proof. exact hello_matches_presents. Qed.
+  id <> [] -> hello_matches id g = true -> g = GHello ccb_reverse_connect (Some id).
+Proof. exact hello_matches_exact. Qed.
 Print Assumptions C20_matching_presents_id.
+
+Theorem C20_one_id_per_greeting : forall id1 id2 g,
+  hello_matches id1 g = true -> hello_matches id2 g = true -> id1 = id2.
+Proof. exact hello_matches_one_id. Qed.
+Print Assumptions C20_one_id_per_greeting.
+
+(* ---- acceptReversed, every arrival list ------------------------------------ *)
+
+(* whatever arrives in whatever order (connections, cancellations, listener
+   failure): if the loop returns a connection, its greeting matched, every
+   connection before it did not match, and exactly those were closed *)
+Theorem C20_accept_loop : forall id arr cancelled p closed,
+  accept_reversed id cancelled arr = (AccConn p, closed) ->
+  exists pre g post,
+    arr = pre ++ AConn p g :: post /\
+    hello_matches id g = true /\
+    closed = conns_of pre /\
+    (forall q g', In (AConn q g') pre -> hello_matches id g' = false).
+Proof. intros id arr c p cl. apply accept_reversed_sound. Qed.
+Print Assumptions C20_accept_loop.
+
+(* ---- C20_only_matching ----------------------------------------------------- *)
+
+(* Standard mode, every interleaving of arrivals, listener failure, context
+   expiry and select choices.  When the attempt is over:
+   (1) a returned connection arrived with a greeting that matches this
+       attempt's id;
+   (2) every connection that reached the listener is closed, except the one
+       returned;
+   (3) with distinct connection labels, a connection whose greeting does not
+       match (wrong / empty / absent / earlier id, prefix or extension of the
+       id, wrong command, garbage, immediate close, stall) is closed and is
+       not the one returned. *)
+Theorem C20_only_matching : forall id sched o,
+  run_attempt id sched = Finished o ->
+  (forall p, o_res o = Returned p ->
+     exists g, In (SArrive p g) sched /\ hello_matches id g = true) /\
+  (forall q g, In (SArrive q g) sched -> In q (o_closed o) \/ o_res o = Returned q) /\
+  (NoDup (map fst (arrivals sched)) ->
+   forall q g, In (SArrive q g) sched -> hello_matches id g = false ->
+     In q (o_closed o) /\ o_res o <> Returned q).
+Proof. exact attempt_only_matching_full. Qed.
+Print Assumptions C20_only_matching.
+
+(* Proxied / nested mode: the broker connection is returned only after
+   {Result:true} and a hello matching this request's id; otherwise it is closed. *)
+Theorem C20_only_matching_proxied : forall id b rep hello,
+  (forall p, o_res (proxy_attempt id b rep hello) = Returned p ->
+     p = b /\ rep = PrOk /\ hello_matches id hello = true) /\
+  (forall e, o_res (proxy_attempt id b rep hello) = Failed e ->
+     o_closed (proxy_attempt id b rep hello) = [b]).
+Proof. exact proxy_only_matching_full. Qed.
+Print Assumptions C20_only_matching_proxied.
+
+(* ---- C20_broker_failure ---------------------------------------------------- *)
+
+(* A failure reply taken while the attempt is still waiting (no reply consumed
+   yet, context not done) ends the attempt with exactly that error, whatever
+   was accepted-but-not-yet-taken before and whatever arrives afterwards. *)
+Theorem C20_broker_failure : forall id s1 m s2 st,
+  run_attempt id s1 = Running st ->
+  as_reply_open st = true -> as_ctx_done st = false ->
+  exists o, run_attempt id (s1 ++ SPickReply (RFail m) :: s2) = Finished o /\
+            o_res o = Failed (AeBroker m).
+Proof. exact attempt_broker_failure. Qed.
+Print Assumptions C20_broker_failure.
+
+(* In particular: a failure reply before any matching connection, after any
+   number of non-matching ones in any order. *)
+Theorem C20_broker_failure_before_match : forall id s1 m s2,
+  forallb (quiet_ev id) s1 = true ->
+  exists o, run_attempt id (s1 ++ SPickReply (RFail m) :: s2) = Finished o /\
+            o_res o = Failed (AeBroker m).
+Proof. exact attempt_broker_failure_before_match. Qed.
+Print Assumptions C20_broker_failure_before_match.
+
+Theorem C20_broker_failure_proxied : forall id b m hello,
+  proxy_attempt id b (PrFail m) hello = mkOut (Failed (AeProxyRefused m)) [b].
+Proof. exact proxy_broker_failure. Qed.
+Print Assumptions C20_broker_failure_proxied.
+
+(* ---- C20_single_winner ----------------------------------------------------- *)
+
+(* Any number of brokers, each attempt with its own id on its own schedule, any
+   schedule of results / stagger timer / cancellation.  If Dial returns p from
+   attempt i then: attempt i was launched and p presented attempt i's id at
+   attempt i's listener; at most one connection is handed to the caller; and
+   every other launched attempt that had also accepted a connection has that
+   connection closed (drained), never handed out. *)
+Theorem C20_single_winner : forall sequential atts sched i p launched reported,
+  dial_full sequential atts sched = DDone (DReturned i p) launched reported ->
+  (exists id s g, nth_error atts i = Some (id, s) /\ i < launched /\
+                  In (SArrive p g) s /\ hello_matches id g = true) /\
+  length (dial_handed (dial_full sequential atts sched)) <= 1 /\
+  (forall j idj sj oj q, j <> i -> j < launched ->
+     nth_error atts j = Some (idj, sj) -> run_attempt idj sj = Finished oj -> o_res oj = Returned q ->
+     In q (dial_drained (attempt_outcomes atts) (dial_full sequential atts sched))).
+Proof. exact dial_single_winner_full. Qed.
+Print Assumptions C20_single_winner.
+
+(* ---- non-vacuity ------------------------------------------------------------ *)
+
+Local Open Scope N_scope.
+Definition ex_id : bytes := connect_id (payload 7 20).
+Definition ex_prefix : bytes := firstn 39 ex_id.
+Definition ex_sched : list sev :=
+  [ SArrive 1 (GHello ccb_reverse_connect (Some ex_prefix));   (* strict prefix of the id *)
+    SArrive 2 GMalformed;
+    SArrive 3 (GHello ccb_reverse_connect None);               (* no ClaimId *)
+    SPickReply ROk;
+    SArrive 4 (GHello ccb_request (Some ex_id));               (* right id, wrong command *)
+    SArrive 5 (GHello ccb_reverse_connect (Some ex_id));       (* the legitimate one *)
+    SArrive 6 GClosed;
+    SPickAccept ].
+
+Example C20_ex_returns_legit :
+  exists o, run_attempt ex_id ex_sched = Finished o /\ o_res o = Returned 5 /\
+            o_closed o = [1; 2; 3; 4; 6] /\ NoDup (map fst (arrivals ex_sched)).
+Proof.
+  eexists. split; [vm_compute; reflexivity|]. split; [reflexivity|]. split; [reflexivity|].
+  vm_compute. repeat constructor; simpl; intuition discriminate.
+Qed.
+
+(* hypotheses of C20_broker_failure(_before_match) are satisfiable *)
+Example C20_ex_failure_hyp :
+  forallb (quiet_ev ex_id) (firstn 3 ex_sched) = true /\
+  exists st, run_attempt ex_id (firstn 3 ex_sched) = Running st /\
+             as_reply_open st = true /\ as_ctx_done st = false.
+Proof. split; [vm_compute; reflexivity|]. eexists. vm_compute. auto. Qed.
+
+(* two brokers succeed: one winner, the other connection is drained *)
+Definition ex_id2 : bytes := connect_id (payload 99 20).
+Definition ex_atts : list (bytes * list sev) :=
+  [ (ex_id, [SArrive 10 (GHello ccb_reverse_connect (Some ex_id2));   (* the other attempt's id: rejected *)
+             SArrive 11 (GHello ccb_reverse_connect (Some ex_id)); SPickAccept]);
+    (ex_id2, [SArrive 20 (GHello ccb_reverse_connect (Some ex_id2)); SPickAccept]) ].
+
+Example C20_ex_two_succeed :
+  dial_full false ex_atts [DStagger; DResult 1%nat] = DDone (DReturned 1%nat 20) 2%nat [1%nat] /\
+  dial_drained (attempt_outcomes ex_atts) (dial_full false ex_atts [DStagger; DResult 1%nat]) = [11] /\
+  ex_id <> ex_id2.
+Proof. split; [vm_compute; reflexivity|]. split; [vm_compute; reflexivity|]. vm_compute. discriminate. Qed.
